@@ -606,6 +606,22 @@ def c_implicit(prob, par, seed, obj=None):
     def fn(rng):
         return (rng.choice(labels), rng.randint(0, 2))
 
+    if par.get("mode") == "derived":
+        # a marginalised / conditioned distribution is a new seeded distribution: its tables are a
+        # function of (function, sample size, seed) only.  Fresh run: derived from a parent that
+        # has not been used; reuse: derived again from the same parent after the parent's own
+        # private stream has been used (items, sample, expectation) - must give the same tables.
+        if obj is None:
+            obj = ImplicitDistribution(fn, n_samples=par.get("n", 40), _seed=seed)
+        else:
+            dict(obj.items())
+            obj.sample()
+            obj.expectation(lambda e: e[1])
+        out = {"marginal": dict(obj.marginalize(lambda e: e[0]).items()),
+               "marginal_expectation": obj.marginalize(lambda e: e[1]).expectation(),
+               "marginal_stream": (lambda d: [d.sample() for _ in range(5)])(obj.marginalize(lambda e: e[0])),
+               "conditioned": dict(obj.condition(lambda e: e[1] > 0).items())}
+        return {"main": out, "aux": {}, "obj": obj}
     if par.get("mode") == "explicit":
         # "equally seeded generator": the distribution (own seed par["pseed"], None = unseeded), its
         # conditioned and its marginalised versions are sampled with an explicit random.Random(seed);
@@ -741,7 +757,7 @@ COMPONENTS = {
 def is_reusable(case):
     """Second call on the same object (reuse = 1) is logged and judged for this case."""
     if case["comp"] == "Implicit":
-        return case["par"].get("mode") == "explicit"
+        return case["par"].get("mode") in ("explicit", "derived")
     return COMPONENTS[case["comp"]][3]
 
 
@@ -879,6 +895,7 @@ def make_plan(tier, seed):
                 C("SemiMDP", "lineworld", options="named"), C("SemiMDP", "lineworld", options="unnamed"),
                 C("Implicit", "-"), C("Implicit", "-", n=7),
                 C("Implicit", "-", mode="explicit"), C("Implicit", "-", mode="explicit", pseed=11),
+                C("Implicit", "-", mode="derived"), C("Implicit", "-", mode="derived", n=9),
                 C("POMDPRollout", "tiger"), C("POMDPRollout", "tiger", policy="qmdp"),
                 C("POMDPRollout", "tiger", given=1), C("POMDPRollout", "loadunload"),
             ]
